@@ -75,6 +75,11 @@ def try_str(n):
         return ("EXC", type(e).__name__)
 
 
+def mutable_attrs(n):
+    """the container-valued attributes of a node object, by value"""
+    return sorted((k, repr(v)) for k, v in vars(n).items() if isinstance(v, (list, dict, set)))
+
+
 def check_tree(res, rnd, root, inp):
     d0 = describe(root)
     ids0 = identities(root)
@@ -111,6 +116,18 @@ def check_tree(res, rnd, root, inp):
         n.id = "changed"
         if describe(other) != d_other:
             res.failures.append(dict(**{"class": "not-independent"}, input=inp, detail="changing one tree changed the other"))
+        # mutable attributes edited IN PLACE (seed C13-D shared the `classes` list between original and copy)
+        attrs_other = [mutable_attrs(m) for m in nodes(other)]
+        for m in nodes(victim):
+            for k, v in vars(m).items():
+                if isinstance(v, list):
+                    v.append("edited")
+                elif isinstance(v, dict):
+                    v["edited"] = 1
+                elif isinstance(v, set):
+                    v.add("edited")
+        if [mutable_attrs(m) for m in nodes(other)] != attrs_other:
+            res.failures.append(dict(**{"class": "not-independent"}, input=inp, detail="editing a list/dict/set attribute of one tree's nodes in place changed the other tree's"))
 
 
 def check_from_root(res, root, inp):
